@@ -10,6 +10,12 @@
  *   VERIF_ENV_CLOCK_OFFSET_MS=<i64>, VERIF_ENV_CLOCK_JUMP_MS=<u64>, VERIF_ENV_CLOCK_JUMP_EVERY=<n>
  *                              clock_gettime(): shifted; every n-th read jumps forward
  *   VERIF_ENV_HEAP_PAD=<bytes> constructor leaks one allocation of that size (heap layout)
+ *   VERIF_ENV_WRITE_FAIL_AT=<k> + VERIF_ENV_WRITE_ERRNO=<e>
+ *                              write(): the k-th write (1-based) to a pipe on a descriptor above 2 fails with errno e
+ *   VERIF_ENV_WRITE_SHORT_EVERY=<n>
+ *                              write(): every n-th write to such a pipe transfers only half of the bytes (>= 1)
+ *   VERIF_ENV_SPAWN_FAIL_AT=<k> + VERIF_ENV_SPAWN_ERRNO=<e>
+ *                              posix_spawn()/posix_spawnp(): the k-th call fails with errno e (EAGAIN, ENOMEM)
  *   VERIF_ENV_LOG=<path>       append one line per interposed call class with counts at exit
  */
 #define _GNU_SOURCE
@@ -229,14 +235,92 @@ int clock_gettime(clockid_t id, struct timespec *ts) {
     return r;
 }
 
+/* -------------------------------------------------------------- write faults */
+#include <sys/stat.h>
+#include <spawn.h>
+static int wf_init = 0;
+static uint64_t wf_fail_at, wf_errno = 32, wf_short_every;
+static unsigned long n_pipe_writes, n_write_faults, n_short_writes, n_spawns, n_spawn_faults;
+
+ssize_t write(int fd, const void *buf, size_t count) {
+    static ssize_t (*real)(int, const void *, size_t);
+    if (!real) real = dlsym(RTLD_NEXT, "write");
+    if (!wf_init) {
+        pthread_mutex_lock(&lock);
+        if (!wf_init) {
+            env_u64("VERIF_ENV_WRITE_FAIL_AT", &wf_fail_at);
+            env_u64("VERIF_ENV_WRITE_ERRNO", &wf_errno);
+            env_u64("VERIF_ENV_WRITE_SHORT_EVERY", &wf_short_every);
+            wf_init = 1;
+        }
+        pthread_mutex_unlock(&lock);
+    }
+    if ((wf_fail_at || wf_short_every) && fd > 2 && count > 0) {
+        struct stat st;
+        if (fstat(fd, &st) == 0 && S_ISFIFO(st.st_mode)) {
+            unsigned long k = __sync_add_and_fetch(&n_pipe_writes, 1);
+            if (wf_fail_at && k == wf_fail_at) {
+                __sync_fetch_and_add(&n_write_faults, 1);
+                errno = (int)wf_errno;
+                return -1;
+            }
+            if (wf_short_every && k % wf_short_every == 0 && count > 1) {
+                __sync_fetch_and_add(&n_short_writes, 1);
+                return real(fd, buf, count / 2);
+            }
+        }
+    }
+    return real(fd, buf, count);
+}
+
+/* --------------------------------------------------------------- spawn faults */
+static int sf_init = 0;
+static uint64_t sf_fail_at, sf_errno = 11;
+static int spawn_fault(void) {
+    if (!sf_init) {
+        pthread_mutex_lock(&lock);
+        if (!sf_init) {
+            env_u64("VERIF_ENV_SPAWN_FAIL_AT", &sf_fail_at);
+            env_u64("VERIF_ENV_SPAWN_ERRNO", &sf_errno);
+            sf_init = 1;
+        }
+        pthread_mutex_unlock(&lock);
+    }
+    unsigned long k = __sync_add_and_fetch(&n_spawns, 1);
+    if (sf_fail_at && k == sf_fail_at) {
+        __sync_fetch_and_add(&n_spawn_faults, 1);
+        return (int)sf_errno;
+    }
+    return 0;
+}
+
+int posix_spawnp(pid_t *pid, const char *file, const posix_spawn_file_actions_t *fa, const posix_spawnattr_t *attr,
+                 char *const argv[], char *const envp[]) {
+    static int (*real)(pid_t *, const char *, const posix_spawn_file_actions_t *, const posix_spawnattr_t *, char *const[], char *const[]);
+    if (!real) real = dlsym(RTLD_NEXT, "posix_spawnp");
+    int e = spawn_fault();
+    if (e) return e;
+    return real(pid, file, fa, attr, argv, envp);
+}
+
+int posix_spawn(pid_t *pid, const char *path, const posix_spawn_file_actions_t *fa, const posix_spawnattr_t *attr,
+                char *const argv[], char *const envp[]) {
+    static int (*real)(pid_t *, const char *, const posix_spawn_file_actions_t *, const posix_spawnattr_t *, char *const[], char *const[]);
+    if (!real) real = dlsym(RTLD_NEXT, "posix_spawn");
+    int e = spawn_fault();
+    if (e) return e;
+    return real(pid, path, fa, attr, argv, envp);
+}
+
 /* ------------------------------------------------------- constructor / exit */
 static void report(void) {
     const char *p = getenv("VERIF_ENV_LOG");
     if (!p) return;
     FILE *f = fopen(p, "a");
     if (!f) return;
-    fprintf(f, "pid=%d getrandom=%lu readdir=%lu dirs=%lu affinity=%lu clock=%lu\n", (int)getpid(), n_getrandom,
-            n_readdir, n_dirs, n_affinity, n_clock);
+    fprintf(f, "pid=%d getrandom=%lu readdir=%lu dirs=%lu affinity=%lu clock=%lu pipewrites=%lu writefaults=%lu shortwrites=%lu spawns=%lu spawnfaults=%lu\n",
+            (int)getpid(), n_getrandom, n_readdir, n_dirs, n_affinity, n_clock, n_pipe_writes, n_write_faults, n_short_writes,
+            n_spawns, n_spawn_faults);
     fclose(f);
 }
 
